@@ -230,8 +230,11 @@ End Tx.
 
 (** program-level checks: asset definitions are literals of type Bytes; field types resolve *)
 Definition lit_bytes (e : sexpr) : bool := match e with SStr _ | SHex _ | SHexOdd => true | _ => false end.
+Definition names_distinct : bool :=
+  nodupb (map st_name (sp_txs p))
+  && forallb (fun td => nodupb (map fst (td_cases td)) && forallb (fun cs => nodupb (map fst (snd cs))) (td_cases td)) (sp_types p).
 Definition program_ok : bool :=
-  nodupb (map to_lower (map fst (sp_env p) ++ sp_parties p))
+  (names_distinct && nodupb (map to_lower (map fst (sp_env p) ++ sp_parties p)))
   && forallb (fun a => lit_bytes (snd (fst a)) && lit_bytes (snd a)) (sp_assets p)
   && forallb (fun td => forallb (fun cs => forallb (fun f => ty_ok prog_scope (snd f)) (snd cs)) (td_cases td)) (sp_types p).
 
